@@ -165,3 +165,35 @@ def _unescape(val):
 
 def model_string(model, term):
     return _unescape(model.eval(term, model_completion=True).as_string())
+
+
+def as_language(formula, var):
+    """Fold a boolean combination of memberships / equalities of ONE string variable into a single z3 regex, so that the
+    query becomes one membership test (z3 decides that by derivatives; the same formula spread over several InRe atoms and
+    string predicates is frequently answered 'unknown')."""
+    full = z3.Star(any_char())
+    if z3.is_true(formula):
+        return full
+    if z3.is_false(formula):
+        return z3.Complement(full)
+    if z3.is_not(formula):
+        return z3.Complement(as_language(formula.arg(0), var))
+    if z3.is_and(formula):
+        parts = [as_language(c, var) for c in formula.children()]
+        return parts[0] if len(parts) == 1 else z3.Intersect(*parts)
+    if z3.is_or(formula):
+        parts = [as_language(c, var) for c in formula.children()]
+        return parts[0] if len(parts) == 1 else z3.Union(*parts)
+    if z3.is_app(formula) and formula.decl().kind() == z3.Z3_OP_SEQ_IN_RE and formula.arg(0).eq(var):
+        return formula.arg(1)
+    if z3.is_eq(formula):
+        a, b = formula.arg(0), formula.arg(1)
+        if a.eq(var) and z3.is_string_value(b):
+            return z3.Re(b)
+        if b.eq(var) and z3.is_string_value(a):
+            return z3.Re(a)
+    if z3.is_app(formula) and formula.decl().kind() == z3.Z3_OP_SEQ_PREFIX and formula.arg(1).eq(var) and z3.is_string_value(formula.arg(0)):
+        return z3.Concat(z3.Re(formula.arg(0)), full)
+    if z3.is_app(formula) and formula.decl().kind() == z3.Z3_OP_SEQ_SUFFIX and formula.arg(1).eq(var) and z3.is_string_value(formula.arg(0)):
+        return z3.Concat(full, z3.Re(formula.arg(0)))
+    raise Untranslatable(f"cannot fold {formula.decl().name()} into a language of {var}")
